@@ -401,6 +401,10 @@ func processPendingTxs(ctx *context, txs []*types.Transaction, forceSettled map[
 					}
 				}
 				if tx == nil {
+					// not canonical (side chain): look in this block's own ancestors of the period
+					tx = findTxInAncestors(ctx, txHash)
+				}
+				if tx == nil {
 					logging.Error("SHOULD NOT HAPPEN. tx not exist", "txHash", txHash.String())
 					return fmt.Errorf("tx not exist, txHash=%s", txHash.String())
 				}
@@ -419,6 +423,27 @@ func processPendingTxs(ctx *context, txs []*types.Transaction, forceSettled map[
 	})
 
 	return err
+}
+
+// findTxInAncestors searches the blocks of the running staking period on the branch of the
+// block being processed (which need not be the canonical one) for a transaction.
+func findTxInAncestors(ctx *context, txHash common.Hash) *types.Transaction {
+	num := ctx.header.Number.Uint64()
+	first := num - num%ctx.config.StakingTrieFrequency
+	hash := ctx.header.ParentHash
+	for n := num; n > first; n-- {
+		blk := ctx.chain.GetBlock(hash, n-1)
+		if blk == nil {
+			return nil
+		}
+		for _, t := range blk.Transactions() {
+			if t.Hash() == txHash {
+				return t
+			}
+		}
+		hash = blk.ParentHash()
+	}
+	return nil
 }
 
 func settleValidatorRewards(ctx *context, val *state.Validator, currRound uint64) {
